@@ -69,7 +69,7 @@ def _mkinfo(chi, nd):
     info.av = np.arange(n) + 0.25
     info.sc = np.arange(n) + 0.5
     info.model_id = np.arange(n) + 100
-    info.model_name = np.array(['m%03d' % i for i in range(n)], dtype='S30')
+    info.model_name = np.array(['m%03d' % i for i in range(n)], dtype='U30')
     info.model_fluxes = np.arange(n * 2, dtype=float).reshape(n, 2) + 0.125
     return info
 
